@@ -2,16 +2,23 @@
 #include "mon.h"
 #include <cstdlib>
 #include <cstdio>
+#include <deque>
+#include <pthread.h>
 extern "C" {
 #include "jls/writer.h"
 #include "jls/reader.h"
 #include "jls/threaded_writer.h"
 #include "jls/copy.h"
 #include "jls/ec.h"
+#include "jls/msg_ring_buffer.h"
+int sim_pthread_mutex_init(pthread_mutex_t *, const pthread_mutexattr_t *);
+int sim_pthread_mutex_lock(pthread_mutex_t *);
+int sim_pthread_mutex_unlock(pthread_mutex_t *);
 extern uint32_t jls_verif_mrb_buffer_size;
 extern size_t jls_verif_buf_default_size;
 }
 namespace sim { int wait_task(int id); }
+extern uint32_t mon_fsr_bits[256];
 
 namespace exec {
 
@@ -171,6 +178,7 @@ WriterResult write_twr(const Plan &p, const std::string &path, bool log_writes) 
     apply_knobs(p);
     if (log_writes) { SFile *f = simfs::create(path); f->log_on = true; }
     mon::begin_run(p);
+    for (auto &o : p.ops) if (o.kind == OP_SIG && o.sig >= 0 && o.sig < 256) mon_fsr_bits[o.sig] = (uint32_t) dt_bits[o.dtype];
     struct jls_twr_s *wr = nullptr;
     std::vector<int> prod_tasks;
     // leading definition ops are issued by producer 0 before the other producers start
@@ -202,6 +210,58 @@ WriterResult write_twr(const Plan &p, const std::string &path, bool log_writes) 
     res.status = sim::run();
     mon::end_run();
     return res;
+}
+
+// ------------------------------------------------------------------ C08 direct driver: two tasks on a bare jls_mrb_s
+RunStatus mrb_driver(const Plan &p, std::vector<std::string> &errors, uint64_t *n_ok, uint64_t *n_fail, uint64_t *n_pop) {
+    mon::begin_run(p);
+    uint32_t cap = p.mrb_size ? p.mrb_size : 256;
+    std::vector<uint8_t> mem(cap + 64, 0xC3);            // guard bytes after the buffer
+    struct jls_mrb_s q;
+    mon_jls_mrb_init(&q, mem.data(), cap);
+    pthread_mutex_t mtx; sim_pthread_mutex_init(&mtx, nullptr);
+    std::deque<uint64_t> seeds;                          // parallel to mon::refq
+    auto pat = [](uint64_t gs, uint32_t i) { uint64_t x = gs + i * 0x9e3779b97f4a7c15ULL; return (uint8_t) (splitmix64(x) >> 24); };
+    bool producer_done = false;
+    sim::spawn([&]() {
+        for (size_t i = 0; i < p.ops.size(); ++i) {
+            const Op &o = p.ops[i]; if (o.kind != OP_USER) continue;
+            sim::set_cur_op((int) i);
+            sim_pthread_mutex_lock(&mtx);
+            uint8_t *m = mon_jls_mrb_alloc(&q, (uint32_t) o.n);
+            if (m) {
+                ++*n_ok;
+                if (m >= mem.data() && m + o.n <= mem.data() + cap) for (uint32_t k = 0; k < (uint32_t) o.n; ++k) m[k] = pat(o.gs, k);
+                seeds.push_back(o.gs);
+            } else ++*n_fail;
+            sim_pthread_mutex_unlock(&mtx);
+        }
+        producer_done = true;
+    }, "mrb_producer", 0);
+    sim::spawn([&]() {
+        for (size_t i = 0; i < p.ops.size(); ++i) {
+            const Op &o = p.ops[i]; if (o.kind != OP_FLUSH) continue;
+            sim::set_cur_op((int) i);
+            sim_pthread_mutex_lock(&mtx);
+            uint32_t sz = 0; uint8_t *m = nullptr;
+            if (o.en) { m = mon_jls_mrb_peek(&q, &sz); if (m) { uint32_t sz2 = 0; uint8_t *m2 = mon_jls_mrb_pop(&q, &sz2); if (m2 != m || sz2 != sz) errors.push_back("pop_differs_from_peek|pop returned a different message than the preceding peek"); } }
+            else m = mon_jls_mrb_pop(&q, &sz);
+            if (m) {
+                ++*n_pop;
+                if (seeds.empty()) errors.push_back("phantom_message|message popped although none is outstanding");
+                else {
+                    uint64_t gs = seeds.front(); seeds.pop_front();
+                    if (m >= mem.data() && m + sz <= mem.data() + cap) for (uint32_t k = 0; k < sz; ++k) if (m[k] != pat(gs, k)) { char b[160]; snprintf(b, sizeof b, "message_bytes_changed|popped message of %u bytes differs at byte %u from what the producer wrote", sz, k); errors.push_back(b); break; }
+                }
+            }
+            sim_pthread_mutex_unlock(&mtx);
+        }
+    }, "mrb_consumer", 1);
+    RunStatus st = sim::run();
+    for (size_t k = cap; k < mem.size(); ++k) if (mem[k] != 0xC3) { errors.push_back("write_outside_buffer|guard byte after the queue buffer was overwritten"); break; }
+    (void) producer_done;
+    mon::end_run();
+    return st;
 }
 
 void build_model(const Plan &p, const std::vector<OpRec> &rec, Model &m) {
